@@ -11,9 +11,9 @@
    that is where the repaired defect F2 lived (restore's check-then-rename race), and it is decided on the
    implementation by schedule exploration — serial, random, PCT and bounded exhaustive schedules of the
    same invocation must give the same verdict and workspace, with the serial run compared to the model. *)
-From Coq Require Import List Arith Permutation.
+From Coq Require Import List Arith Permutation String.
 From Ruler Require Import Bytes AList RuleSyntax TopoSort World Cmdlang Work Build Ops Inv BuildSpec Ideal InvFacts C01Hist C01Facts
-     Sched SchedBasic SchedFacts.
+     Sched SchedBasic SchedFacts Fine FineBasic FineFacts.
 From Ruler Require Import Protocol ProtocolFacts.
 Local Close Scope N_scope.
 Local Open Scope nat_scope.
@@ -94,5 +94,64 @@ Theorem C06_example_two_orders :
   valid_order cx_pack [0; 1; 3; 2]%nat /\ valid_order cx_pack [0; 1; 2; 3]%nat /\ [0; 1; 3; 2]%nat <> [0; 1; 2; 3]%nat.
 Proof. split; [exact (proj1 ex_orders_valid) | split; [exact (proj2 ex_orders_valid) | exact ex_orders_differ]]. Qed.
 
+(* ------------------------------------------------------------------------------------------------------
+   INTERLEAVINGS INSIDE THE WORK STEPS (Model/Fine.v; proofs in Proofs/Fine{Basic,Rule,Inv,Serial,Facts}.v).
+   A rule thread's work is split at every operation on the cache directory — the only state the threads share:
+   the back-up rename, the is_file check of a restore, the restore rename (which may find the entry gone: another
+   rule took it between the check and the rename, the situation of the repaired defect F2). A run is any list of
+   worker numbers, one step each; `complete_run`: afterwards every worker is done. For any two complete runs —
+   from any state with the disk invariant and sound histories, a plan of deterministic confined commands — THE
+   SAME VERDICT and THE SAME CONTENT OF EVERY FILE; the serial run is Build.build; a successful run leaves the
+   from-scratch contents. "Independent rules that happen to produce or need byte-identical files never make each
+   other fail": C06_racing_rules_example shows two rules that both see one cache entry at their check; whichever
+   loses the rename re-runs its command; both orders give the same files (by the theorem and by computation).
+   Every schedule the exploration runs on the implementation is replayed through this model (suite sched, "fine"). *)
+Local Open Scope string_scope.
+Local Notation build_fine_sym := (build_fine sym_eqb SContent SList SRule).
+Local Notation complete_run_sym := (complete_run sym sym_eqb SContent SList SRule).
+
+Theorem C06_same_verdict_and_files_for_every_interleaving : forall (w : world sym) rp goal w1 tbl pack ch1 ch2,
+  disk_inv sym_eqb SContent w -> hist_sound_sym w ->
+  init_dir sym w = Ok (w1, tbl) -> get_nodes sym w1 rp goal = Ok pack -> Forall det_node (p_nodes pack) ->
+  complete_run_sym ch1 w rp goal -> complete_run_sym ch2 w rp goal ->
+  o_verdict (build_fine_sym ch1 w rp goal) = o_verdict (build_fine_sym ch2 w rp goal) /\
+  forall p, content_at (o_world (build_fine_sym ch1 w rp goal)) p = content_at (o_world (build_fine_sym ch2 w rp goal)) p.
+Proof. exact build_fine_schedule_independent_sym. Qed.
+
+Theorem C06_serial_interleaving_is_the_build : forall (w : world sym) rp goal w1 tbl pack blobs t',
+  disk_inv sym_eqb SContent w -> hist_sound_sym w ->
+  init_dir sym w = Ok (w1, tbl) -> get_nodes sym w1 rp goal = Ok pack -> Forall det_node (p_nodes pack) ->
+  take_blobs sym SContent tbl (worker_paths pack) = (blobs, t') ->
+  build_fine_sym (serial_choices sym pack blobs) w rp goal = build_sym w rp goal.
+Proof. exact build_fine_serial_sym. Qed.
+
+Theorem C06_every_interleaving_has_the_builds_verdict : forall (w : world sym) rp goal w1 tbl pack ch,
+  disk_inv sym_eqb SContent w -> hist_sound_sym w ->
+  init_dir sym w = Ok (w1, tbl) -> get_nodes sym w1 rp goal = Ok pack -> Forall det_node (p_nodes pack) ->
+  complete_run_sym ch w rp goal ->
+  o_verdict (build_fine_sym ch w rp goal) = o_verdict (build_sym w rp goal).
+Proof. exact build_fine_verdict_sym. Qed.
+
+Theorem C06_every_interleaving_equals_scratch : forall (w : world sym) rp goal w1 tbl pack ch,
+  disk_inv sym_eqb SContent w -> hist_sound_sym w ->
+  init_dir sym w = Ok (w1, tbl) -> get_nodes sym w1 rp goal = Ok pack -> Forall det_node (p_nodes pack) ->
+  complete_run_sym ch w rp goal ->
+  o_verdict (build_fine_sym ch w rp goal) = VOk ->
+  forall t, In t (plan_targets pack) ->
+    content_at (o_world (build_fine_sym ch w rp goal)) t = content_at (scratch_world w pack) t.
+Proof. exact build_fine_equals_scratch_sym. Qed.
+
+Theorem C06_racing_rules_example :
+  o_verdict (build_fine_sym fx_c_wins fx_w RULES_PATH None) = VOk /\
+  o_verdict (build_fine_sym fx_b_wins fx_w RULES_PATH None) = VOk /\
+  o_commands (build_fine_sym fx_c_wins fx_w RULES_PATH None) = [bs "gen b =x @a"] /\
+  o_commands (build_fine_sym fx_b_wins fx_w RULES_PATH None) = [bs "gen c =x @a"] /\
+  content_at (o_world (build_fine_sym fx_c_wins fx_w RULES_PATH None)) (bs "b") = Some (bs "x1") /\
+  content_at (o_world (build_fine_sym fx_b_wins fx_w RULES_PATH None)) (bs "b") = Some (bs "x1") /\
+  content_at (o_world (build_fine_sym fx_c_wins fx_w RULES_PATH None)) (bs "c") = Some (bs "x1") /\
+  content_at (scratch_world fx_w fx_pack) (bs "c") = Some (bs "x1").
+Proof. exact fx_values. Qed.
+
 Check C06_same_events_every_schedule.
 Check C06_same_verdict_and_files_for_every_work_order.
+Check C06_same_verdict_and_files_for_every_interleaving.
